@@ -356,6 +356,10 @@ pub struct CidrCase {
     pub probe: u8,
     pub rnd: [u8; 16],
     pub canonical: bool,
+    /// v6 only: 0 = anywhere, 1 = IPv4-mapped ::ffff:0:0/96, 2 = IPv4-compatible ::/96, 3 = NAT64 64:ff9b::/96
+    /// (network and random probe are moved there; the other-family probe is then the embedded IPv4 address)
+    #[serde(default)]
+    pub region: u8,
 }
 
 fn eval_cidr(ip: &str, net: &str) -> Result<Result<Value, String>, crate::harness::util::Panicked> {
@@ -372,11 +376,21 @@ pub fn run_cidr(c: &CidrCase, info: &mut CaseInfo) -> Result<(), Failure> {
     let bits: u32 = if c.v6 { 128 } else { 32 };
     let len = (c.len as u32) % (bits + 1);
     let raw: u128 = if c.v6 { u128::from_be_bytes(c.net) } else { u32::from_be_bytes([c.net[0], c.net[1], c.net[2], c.net[3]]) as u128 };
+    let region = c.region % 4;
+    let place = |v: u128| -> u128 {
+        if !c.v6 || region == 0 {
+            return v;
+        }
+        let prefix: u128 = [0u128, 0xffffu128 << 32, 0, 0x0064_ff9bu128 << 96][region as usize];
+        prefix | (v & 0xffff_ffff)
+    };
+    let raw = place(raw);
     let full: u128 = if c.v6 { !0u128 } else { 0xffff_ffff };
     let mask: u128 = if len == 0 { 0 } else { (full << (bits - len)) & full };
     let network = raw & mask;
     let net_val = if c.canonical { network } else { raw };
     let rnd: u128 = (if c.v6 { u128::from_be_bytes(c.rnd) } else { u32::from_be_bytes([c.rnd[0], c.rnd[1], c.rnd[2], c.rnd[3]]) as u128 }) & full;
+    let rnd = place(rnd);
     let last = network | (!mask & full);
     let probe_val: Option<u128> = match c.probe % 7 {
         0 => network.checked_sub(1),
@@ -404,7 +418,15 @@ pub fn run_cidr(c: &CidrCase, info: &mut CaseInfo) -> Result<(), Failure> {
         Some(v) => (fmt(v, c.v6), false),
         None => {
             // an address of the other family
-            (if c.v6 { "10.1.2.3".to_string() } else { "2001:db8::1".to_string() }, true)
+            // (region != 0: the embedded / mapped form of an address inside the network, which plain
+            // containment still keeps apart because the families differ)
+            let inside = network | (rnd & !mask & full);
+            match (c.v6, region) {
+                (true, 0) => ("10.1.2.3".to_string(), true),
+                (false, 0) => ("2001:db8::1".to_string(), true),
+                (true, _) => (fmt(inside & 0xffff_ffff, false), true),
+                (false, _) => (format!("::ffff:{}", fmt(inside, false)), true),
+            }
         }
     };
     let net = format!("{}/{}", fmt(net_val, c.v6), len);
@@ -439,6 +461,9 @@ pub fn run_cidr(c: &CidrCase, info: &mut CaseInfo) -> Result<(), Failure> {
             want
         ),
     }
+    if region != 0 {
+        info.class(format!("{}-region-{}", if c.v6 { "v6" } else { "v4" }, ["any", "mapped", "compat", "nat64"][region as usize]));
+    }
     info.class(format!("{}-{}", if c.v6 { "v6" } else { "v4" }, ["below", "first", "last", "above", "inside", "random", "other-family"][(c.probe % 7) as usize]));
     info.nontrivial = (c.probe % 7) != 5;
     info.sample = Some(json!({"ip": ip, "net": net, "want": want}));
@@ -446,13 +471,14 @@ pub fn run_cidr(c: &CidrCase, info: &mut CaseInfo) -> Result<(), Failure> {
 }
 
 fn cidr_strategy() -> impl Strategy<Value = CidrCase> {
-    (any::<bool>(), any::<[u8; 16]>(), any::<u8>(), 0u8..7, any::<[u8; 16]>(), prop::bool::weighted(0.9)).prop_map(|(v6, net, len, probe, rnd, canonical)| CidrCase {
+    (any::<bool>(), any::<[u8; 16]>(), any::<u8>(), 0u8..7, any::<[u8; 16]>(), prop::bool::weighted(0.9), prop_oneof![3 => Just(0u8), 2 => 1u8..4]).prop_map(|(v6, net, len, probe, rnd, canonical, region)| CidrCase {
         v6,
         net,
         len,
         probe,
         rnd,
         canonical,
+        region,
     })
 }
 
@@ -471,7 +497,7 @@ pub fn checks() -> Vec<Box<dyn SubCheck>> {
         Box::new(vcore::PropCheck {
             property: "C02",
             name: "cidr",
-            rule: "cidr_match law: prefix lengths 0..32 / 0..128 x random networks (canonical; 10% with host bits set, judged only for not crashing) x probe address at network-1, first, last, last+1, inside, random, or of the other family; oracle: own mask arithmetic on u32/u128, mixed family => false; non-trivial = boundary / inside / other-family probes",
+            rule: "cidr_match law: prefix lengths 0..32 / 0..128 x random networks (canonical; 10% with host bits set, judged only for not crashing) x probe address at network-1, first, last, last+1, inside, random, or of the other family; 40% of the cases in a special IPv6 region (IPv4-mapped ::ffff:0:0/96, IPv4-compatible ::/96, NAT64 64:ff9b::/96) with the embedded IPv4 address / the mapped form of an inside address as the other-family probe; oracle: own mask arithmetic on u32/u128, mixed family => false; non-trivial = boundary / inside / other-family probes",
             quick: 30_000,
             thorough: 1_000_000,
             max_shrink: 500,
